@@ -129,7 +129,7 @@ def oracle(case, rec):
     if case.get("companion"):
         comp = call(key + "/companion-construct", case, lossgen.companion, case, model)
         rec.label("companion-loss-object-on-same-model")
-        lossgen.interleave(obj, ["cost", "residual", "costIV"], lambda: call(key + "/companion-cost", case, comp.cost))
+        lossgen.interleave(obj, ["cost", "residual", "costIV"], lambda: call(key + "/companion-work", case, lossgen.companion_work, comp))
     if case.get("iv_first"):
         _check_costIV(case, rec, obj, key, m, su, names, y, th, free, times, cols)
     got = call(key + "/cost", case, obj.cost, np.array(free))
